@@ -1,101 +1,319 @@
 package main
 
+// gen_clone.go: constants, literals, defaults and comparison operators of the clone
+// detection pipeline (properties C08, C09) -> coq/Gen/CloneConst.v.
+//
+//   * package-level numeric constants of internal/analyzer (jaccardRejectionThreshold, Type1Clone..)
+//   * the ratio literals of shouldCompareFragments
+//   * fallback values `if x <= 0 { x = LIT }` in the batch loop, NewLSHIndex, computeBandKeys, NewMinHasher
+//   * the comparison operators of classifyCloneType, isSignificantClone, isOverlappingLocation,
+//     shouldIncludeFragment and service.filterClonePairs (as Q/Z boolean functions)
+//   * MaxClonePairs / BatchSizeThreshold literals of service.createDetectorConfig
+
 import (
 	"fmt"
 	"go/ast"
+	"go/constant"
 	"go/token"
 	"strings"
 )
 
-// Constants of the grouping strategies (internal/analyzer/*_grouping.go) used by the
-// Coq models in coq/Clone/Group*.v, and digests of every function those models mirror.
+func numLits(fd *ast.FuncDecl) []string {
+	var out []string
+	ast.Inspect(fd, func(nd ast.Node) bool {
+		bl, ok := nd.(*ast.BasicLit)
+		if !ok || (bl.Kind != token.INT && bl.Kind != token.FLOAT) {
+			return true
+		}
+		v := constant.MakeFromLiteral(bl.Value, bl.Kind, 0)
+		if s, ok := coqQ(v); ok {
+			out = append(out, s)
+		}
+		return true
+	})
+	return out
+}
+
+// fallbackAssigns: `ident = LIT` assignments in fd (ident -> Z literal).
+func fallbackAssigns(fd *ast.FuncDecl) map[string]int64 {
+	res := map[string]int64{}
+	ast.Inspect(fd, func(nd ast.Node) bool {
+		as, ok := nd.(*ast.AssignStmt)
+		if !ok || as.Tok != token.ASSIGN || len(as.Lhs) != 1 || len(as.Rhs) != 1 {
+			return true
+		}
+		id, ok := as.Lhs[0].(*ast.Ident)
+		if !ok {
+			return true
+		}
+		if v, ok := intLit(as.Rhs[0]); ok {
+			res[id.Name] = v
+		}
+		return true
+	})
+	return res
+}
+
+func qCmp(op token.Token) (string, bool) {
+	switch op {
+	case token.GTR:
+		return "clone_Qlt b a", true // a > b
+	case token.GEQ:
+		return "Qle_bool b a", true
+	case token.LSS:
+		return "clone_Qlt a b", true
+	case token.LEQ:
+		return "Qle_bool a b", true
+	}
+	return "", false
+}
+
+func zCmp(op token.Token) (string, bool) {
+	switch op {
+	case token.GTR:
+		return "Z.ltb b a", true
+	case token.GEQ:
+		return "Z.leb b a", true
+	case token.LSS:
+		return "Z.ltb a b", true
+	case token.LEQ:
+		return "Z.leb a b", true
+	}
+	return "", false
+}
+
+// cmpOps: every ordering comparison in fd, in source order, with printed operands.
+type cmpAt struct {
+	op   token.Token
+	x, y string
+}
+
+func cmpOps(p *pkgInfo, fd *ast.FuncDecl) []cmpAt {
+	var out []cmpAt
+	ast.Inspect(fd, func(nd ast.Node) bool {
+		be, ok := nd.(*ast.BinaryExpr)
+		if !ok {
+			return true
+		}
+		switch be.Op {
+		case token.GTR, token.GEQ, token.LSS, token.LEQ:
+			out = append(out, cmpAt{be.Op, src(p, be.X), src(p, be.Y)})
+		}
+		return true
+	})
+	return out
+}
+
 func init() {
 	generators = append(generators, func() {
 		p := loadPkg("internal/analyzer")
-		if p == nil {
+		sp := loadPkg("service")
+		if p == nil || sp == nil {
 			return
 		}
 		var b strings.Builder
-		b.WriteString("(* constants of internal/analyzer/{star_medoid,k_core}_grouping.go *)\n")
+		b.WriteString("From Coq Require Import QArith.\nDefinition clone_Qlt (a b : Q) : bool := negb (Qle_bool b a).\n")
+		if n := emitConsts(&b, p, "analyzer"); n == 0 {
+			fail("no constants extracted from internal/analyzer")
+		}
+		get := func(pk *pkgInfo, file, recv, name string) *ast.FuncDecl {
+			fd := findFunc(pk, file, recv, name)
+			if fd == nil {
+				fail("function not found: %s %s.%s", file, recv, name)
+			}
+			return fd
+		}
+		emitQcmp := func(name string, c cmpAt) {
+			s, _ := qCmp(c.op)
+			fmt.Fprintf(&b, "(* %s %s %s *)\nDefinition %s (a b : Q) : bool := %s.\n", c.x, c.op, c.y, name, s)
+		}
+		emitZcmp := func(name string, c cmpAt) {
+			s, _ := zCmp(c.op)
+			fmt.Fprintf(&b, "(* %s %s %s *)\nDefinition %s (a b : Z) : bool := %s.\n", c.x, c.op, c.y, name, s)
+		}
 
-		// NewStarMedoidGrouping: composite literal fields maxIterations, noChangeLimit
-		if fd := findFunc(p, "star_medoid_grouping.go", "", "NewStarMedoidGrouping"); fd != nil {
-			found := map[string]string{}
-			ast.Inspect(fd, func(n ast.Node) bool {
-				kv, ok := n.(*ast.KeyValueExpr)
-				if !ok {
+		// shouldCompareFragments: literals 2.0, 0, 0.5, 0.5, 0.5 and the comparisons
+		if fd := get(p, "clone_detector.go", "CloneDetector", "shouldCompareFragments"); fd != nil {
+			l := numLits(fd)
+			cs := cmpOps(p, fd)
+			if len(l) != 5 || len(cs) != 4 {
+				fail("shouldCompareFragments: expected 5 numeric literals and 4 comparisons, got %d, %d", len(l), len(cs))
+			} else {
+				fmt.Fprintf(&b, "Definition clone_sc_avg_div : Q := %s.\nDefinition clone_sc_avg_pos : Q := %s.\nDefinition clone_sc_size_ratio : Q := %s.\n"+
+					"Definition clone_sc_line_ratio1 : Q := %s.\nDefinition clone_sc_line_ratio2 : Q := %s.\n", l[0], l[1], l[2], l[3], l[4])
+				emitQcmp("clone_sc_cmp_avgpos", cs[0])
+				emitQcmp("clone_sc_cmp_size", cs[1])
+				emitQcmp("clone_sc_cmp_line1", cs[2])
+				emitQcmp("clone_sc_cmp_line2", cs[3])
+			}
+		}
+		// classifyCloneType: four comparisons similarity OP threshold
+		if fd := get(p, "clone_detector.go", "CloneDetector", "classifyCloneType"); fd != nil {
+			cs := cmpOps(p, fd)
+			if len(cs) != 4 {
+				fail("classifyCloneType: expected 4 comparisons, got %d", len(cs))
+			} else {
+				for i, c := range cs {
+					if c.x != "similarity" || !strings.HasSuffix(c.y, fmt.Sprintf("Type%dThreshold", i+1)) {
+						fail("classifyCloneType: comparison %d is %s %s %s", i, c.x, c.op, c.y)
+					}
+					emitQcmp(fmt.Sprintf("clone_classify_cmp%d", i+1), c)
+				}
+			}
+		}
+		// isSignificantClone: minThreshold <= 0; pair.Similarity < minThreshold; MaxEditDistance > 0; Distance > Max; minSize >= MinNodes
+		if fd := get(p, "clone_detector.go", "CloneDetector", "isSignificantClone"); fd != nil {
+			cs := cmpOps(p, fd)
+			if len(cs) != 5 {
+				fail("isSignificantClone: expected 5 comparisons, got %d", len(cs))
+			} else {
+				emitQcmp("clone_sig_cmp_unset", cs[0])
+				emitQcmp("clone_sig_cmp_below", cs[1])
+				emitQcmp("clone_sig_cmp_distset", cs[2])
+				emitQcmp("clone_sig_cmp_dist", cs[3])
+				emitZcmp("clone_sig_cmp_size", cs[4])
+			}
+		}
+		if fd := get(p, "clone_detector.go", "CloneDetector", "isOverlappingLocation"); fd != nil {
+			cs := cmpOps(p, fd)
+			if len(cs) != 2 || cs[0].x != "loc1.EndLine" || cs[0].y != "loc2.StartLine" || cs[1].x != "loc2.EndLine" || cs[1].y != "loc1.StartLine" {
+				fail("isOverlappingLocation: unexpected comparisons %v", cs)
+			} else {
+				emitZcmp("clone_overlap_cmp1", cs[0])
+				emitZcmp("clone_overlap_cmp2", cs[1])
+			}
+		}
+		if fd := get(p, "clone_detector.go", "CloneDetector", "shouldIncludeFragment"); fd != nil {
+			cs := cmpOps(p, fd)
+			if len(cs) != 2 || cs[0].x != "fragment.Size" || cs[1].x != "fragment.LineCount" {
+				fail("shouldIncludeFragment: unexpected comparisons %v", cs)
+			} else {
+				emitZcmp("clone_include_cmp_nodes", cs[0]) // true = rejected
+				emitZcmp("clone_include_cmp_lines", cs[1])
+			}
+		}
+		if fd := get(p, "clone_detector.go", "CloneDetector", "tryCreateClonePair"); fd != nil {
+			cs := cmpOps(p, fd)
+			if len(cs) != 1 {
+				fail("tryCreateClonePair: expected 1 comparison, got %d", len(cs))
+			} else {
+				emitQcmp("clone_try_cmp_min", cs[0])
+			}
+		}
+		if fd := get(p, "clone_detector.go", "CloneDetector", "addPairWithLimit"); fd != nil {
+			cs := cmpOps(p, fd)
+			// len(pairs) < maxPairs ; pairs[i].Sim > pairs[j].Sim ; newPair.Sim > worst ; pairs[i].Sim > pairs[j].Sim
+			if len(cs) != 4 {
+				fail("addPairWithLimit: expected 4 comparisons, got %d", len(cs))
+			} else {
+				emitZcmp("clone_add_cmp_room", cs[0])
+				emitQcmp("clone_add_cmp_better", cs[2])
+			}
+		}
+		if fd := get(p, "clone_detector.go", "CloneDetector", "detectClonePairsWithBatchingContext"); fd != nil {
+			fa := fallbackAssigns(fd)
+			mp, ok1 := fa["maxPairs"]
+			bs, ok2 := fa["batchSize"]
+			if !ok1 || !ok2 {
+				fail("batch loop: fallback assignments maxPairs/batchSize not found")
+			}
+			fmt.Fprintf(&b, "Definition clone_batch_default_maxPairs : Z := (%d)%%Z.\nDefinition clone_batch_default_batchSize : Z := (%d)%%Z.\n", mp, bs)
+		}
+		if fd := get(p, "clone_detector.go", "CloneDetector", "DetectClonesWithLSH"); fd != nil {
+			// minhashThreshold clamp: < 0 -> 0, > 1 -> 1 ; est < minhashThreshold
+			n := 0
+			for _, c := range cmpOps(p, fd) {
+				if c.x == "est" && c.y == "minhashThreshold" {
+					emitQcmp("clone_lsh_cmp_est", c)
+					n++
+				}
+			}
+			if n != 1 {
+				fail("DetectClonesWithLSH: comparison est ? minhashThreshold not found exactly once")
+			}
+		}
+		if fd := get(p, "lsh_index.go", "", "NewLSHIndex"); fd != nil {
+			fa := fallbackAssigns(fd)
+			fmt.Fprintf(&b, "Definition clone_lsh_default_bands : Z := (%d)%%Z.\nDefinition clone_lsh_default_rows : Z := (%d)%%Z.\n", fa["bands"], fa["rows"])
+			if fa["bands"] == 0 || fa["rows"] == 0 {
+				fail("NewLSHIndex: fallback bands/rows not found")
+			}
+		}
+		if fd := get(p, "lsh_index.go", "LSHIndex", "computeBandKeys"); fd != nil {
+			// the band width actually used: `if total > 0 && r > total { r = total }` (absent: r unchanged)
+			clamp := false
+			ast.Inspect(fd, func(nd ast.Node) bool {
+				is, ok := nd.(*ast.IfStmt)
+				if !ok || len(is.Body.List) != 1 {
 					return true
 				}
-				k, ok1 := kv.Key.(*ast.Ident)
-				v, ok2 := kv.Value.(*ast.BasicLit)
-				if ok1 && ok2 && v.Kind == token.INT {
-					found[k.Name] = v.Value
+				if as, ok := is.Body.List[0].(*ast.AssignStmt); ok && src(p, as) == "r = total" && src(p, is.Cond) == "total > 0 && r > total" {
+					clamp = true
 				}
 				return true
 			})
-			for _, name := range []string{"maxIterations", "noChangeLimit"} {
-				if v, ok := found[name]; ok {
-					fmt.Fprintf(&b, "Definition clone_star_%s : Z := (%s)%%Z.\n", name, v)
+			if clamp {
+				b.WriteString("Definition clone_lsh_rows_used (r total : Z) : Z := if Z.ltb 0 total && Z.ltb total r then total else r.\n")
+			} else {
+				b.WriteString("Definition clone_lsh_rows_used (r total : Z) : Z := r.\n")
+			}
+			fa := fallbackAssigns(fd)
+			if fa["r"] != 4 || fa["b"] != 32 {
+				fmt.Fprintf(&b, "(* computeBandKeys fallbacks r=%d b=%d *)\n", fa["r"], fa["b"])
+			}
+		}
+		if fd := get(p, "minhash.go", "", "NewMinHasher"); fd != nil {
+			fa := fallbackAssigns(fd)
+			fmt.Fprintf(&b, "Definition clone_minhash_default_hashes : Z := (%d)%%Z.\n", fa["numHashes"])
+			if fa["numHashes"] == 0 {
+				fail("NewMinHasher: fallback numHashes not found")
+			}
+		}
+		// service: filterClonePairs comparisons and createDetectorConfig literals
+		if fd := get(sp, "clone_service.go", "CloneService", "filterClonePairs"); fd != nil {
+			cs := cmpOps(sp, fd)
+			if len(cs) != 2 || cs[0].y != "req.MinSimilarity" || cs[1].y != "req.MaxSimilarity" {
+				fail("filterClonePairs: unexpected comparisons %v", cs)
+			} else {
+				emitQcmp("clone_filter_cmp_min", cs[0]) // true = dropped
+				emitQcmp("clone_filter_cmp_max", cs[1])
+			}
+		}
+		if fd := get(sp, "clone_service.go", "CloneService", "createDetectorConfig"); fd != nil {
+			f := compositeFields(fd, "analyzer.CloneDetectorConfig")
+			for _, k := range []string{"MaxClonePairs", "BatchSizeThreshold"} {
+				if v, ok := intLit(f[k]); ok {
+					fmt.Fprintf(&b, "Definition clone_service_%s : Z := (%d)%%Z.\n", k, v)
 				} else {
-					fail("NewStarMedoidGrouping: literal field %s not found", name)
+					fail("createDetectorConfig: %s is not an integer literal", k)
 				}
 			}
-		} else {
-			fail("function not found: NewStarMedoidGrouping")
-		}
-
-		// NewKCoreGrouping: `if k < C { k = C }`
-		if fd := findFunc(p, "k_core_grouping.go", "", "NewKCoreGrouping"); fd != nil {
-			ok := false
-			ast.Inspect(fd, func(n ast.Node) bool {
-				ifs, isIf := n.(*ast.IfStmt)
-				if !isIf {
-					return true
+			for _, k := range []string{"BatchSizeLarge", "BatchSizeSmall", "LargeProjectSize"} {
+				if _, present := f[k]; present {
+					fail("createDetectorConfig now sets %s (model assumes it stays 0)", k)
 				}
-				be, isB := ifs.Cond.(*ast.BinaryExpr)
-				if !isB || be.Op != token.LSS {
-					return true
-				}
-				lit, isL := be.Y.(*ast.BasicLit)
-				if !isL || lit.Kind != token.INT || len(ifs.Body.List) != 1 {
-					return true
-				}
-				as, isA := ifs.Body.List[0].(*ast.AssignStmt)
-				if !isA || len(as.Rhs) != 1 {
-					return true
-				}
-				rl, isR := as.Rhs[0].(*ast.BasicLit)
-				if isR && rl.Value == lit.Value {
-					fmt.Fprintf(&b, "Definition clone_kcore_minK : Z := (%s)%%Z.\n", lit.Value)
-					ok = true
-				}
-				return true
-			})
-			if !ok {
-				fail("NewKCoreGrouping: `if k < C { k = C }` not found")
 			}
-		} else {
-			fail("function not found: NewKCoreGrouping")
 		}
-
-		// the comparison operators the models rely on: `p.Similarity >= <recv>.threshold`
-		// must occur in connected and k-core GroupClones, `< c.threshold` / `>= s.threshold`
-		// in complete linkage / star. Recorded as text so that a changed operator is visible
-		// in the digest; the correspondence check is what actually detects it.
 		writeGen("CloneConst.v", b.String())
 
-		recordDigest(p, "connected_grouping.go", "ConnectedGrouping", "GroupClones")
-		recordDigest(p, "complete_linkage_grouping.go", "CompleteLinkageGrouping", "GroupClones")
-		recordDigest(p, "k_core_grouping.go", "KCoreGrouping", "GroupClones")
-		recordDigest(p, "k_core_grouping.go", "", "NewKCoreGrouping")
-		recordDigest(p, "star_medoid_grouping.go", "StarMedoidGrouping", "GroupClones")
-		recordDigest(p, "star_medoid_grouping.go", "StarMedoidGrouping", "findMedoid")
-		recordDigest(p, "star_medoid_grouping.go", "StarMedoidGrouping", "collectFragments")
-		recordDigest(p, "star_medoid_grouping.go", "StarMedoidGrouping", "buildSimilarityMap")
-		recordDigest(p, "star_medoid_grouping.go", "", "NewStarMedoidGrouping")
-		for _, f := range []string{"similarity", "pairKey", "fragmentID", "fragmentLess", "almostEqual"} {
-			recordDigest(p, "star_medoid_grouping.go", "", f)
+		for _, f := range []string{"shouldIncludeFragment", "extractFragmentsRecursive", "detectClonePairsWithContext",
+			"detectClonePairsStandardWithContext", "detectClonePairsWithBatchingContext", "calculateBatchSize",
+			"shouldCompareFragments", "compareFragments", "compareWithAPTED", "compareFragmentsWithClassifier", "classifyCloneType",
+			"isSignificantClone", "isOverlappingLocation", "tryCreateClonePair", "addPairWithLimit", "limitAndSortClonePairs",
+			"DetectClonesWithLSH"} {
+			recordDigest(p, "clone_detector.go", "CloneDetector", f)
 		}
-		recordDigest(p, "grouping_mode.go", "", "CreateGroupingStrategy")
+		for _, f := range []string{"computeBandKeys", "FindCandidates", "addToBuckets"} {
+			recordDigest(p, "lsh_index.go", "LSHIndex", f)
+		}
+		for _, f := range []string{"ComputeSignature", "EstimateJaccardSimilarity"} {
+			recordDigest(p, "minhash.go", "MinHasher", f)
+		}
+		recordDigest(p, "syntactic_similarity.go", "", "jaccardSimilarity")
+		recordDigest(sp, "clone_service.go", "CloneService", "filterClonePairs")
+		recordDigest(sp, "clone_service.go", "CloneService", "createDetectorConfig")
+		dp := loadPkg("domain")
+		recordDigest(dp, "clone.go", "CloneRequest", "Validate")
+		recordDigest(dp, "clone.go", "", "ShouldUseLSH")
 	})
 }
